@@ -10,6 +10,7 @@ def main(tier, replay=None):
     fams = [dict(scn="c07", name="c07-" + f, opts=["family=" + f] + th, bounds="0,0,0,0", total=0, deadline=1200) for f in ("status", "cut", "limits", "multi", "peer")]
     nf = 1 if tier == "quick" else 2
     fams.append(dict(scn="c07", name="c07-faults", opts=["family=faults"], bounds="0,%d,0,0" % nf, total=nf, deadline=1200))
+    fams.append(dict(scn="c07", name="c07-shortreads", opts=["family=shortreads"], bounds="0,%d,0,0" % nf, total=nf, deadline=1200))
     plain_src = run_families(res, "C07", tier, fams)
     res.rule = ("real qmail-smtpd, qmail-qmtpd and qmail-qmqpd with the real qmail.c (real fork/exec) under the virtual kernel; the queue program is a "
                 "stand-in that records both streams, aborts with 54 on an incomplete envelope as qmail-queue(8) prescribes and otherwise exits "
@@ -18,7 +19,8 @@ def main(tier, replay=None):
                 "98..101 hop fields, address lengths 899..1003, NUL bytes, 8 malformed frames; peer: every string of length <=3 (4) over "
                 "{LF,(,),;,0x80,SP,backslash,a} in HELO and TCPREMOTEHOST/INFO/IP/TCPLOCALHOST; faults: every one (thorough: every two) failing "
                 "fork/pipe/exec/dup2/chdir/read/write-to-the-queue-pipes or short read/write in the daemon and in its child before the exec, with "
-                "the stand-in and with the real qmail-queue: never a positive acknowledgement without a commit, never a permanent refusal.  Oracle: positive acknowledgement iff the queue "
+                "the stand-in and with the real qmail-queue: never a positive acknowledgement without a commit, never a permanent refusal; shortreads: any one (two) reads of the daemon returning 1 byte or all-but-one bytes "
+                "(network input, the queue program's error text): outcome unchanged.  Oracle: positive acknowledgement iff the queue "
                 "program committed, the committed bytes are a Received field made only of safe characters + the decoded body + exactly the "
                 "acknowledged envelope, and the refusal class is permanent for 11..40/size/hops/addresses and temporary otherwise")
     res.assumptions = ["virtual kernel (appendix A)", "exit status 115 (undocumented compatibility code) may map to either refusal class"]
